@@ -160,6 +160,27 @@ func (m *model) reach(s string) map[string]bool {
 	return seen
 }
 
+// onCycle reports whether s can reach itself through ok-kind scripts.
+func (m *model) onCycle(s string) bool {
+	seen := map[string]bool{}
+	var rec func(x string) bool
+	rec = func(x string) bool {
+		for _, c := range m.calls[x] {
+			if c.Target == s {
+				return true
+			}
+			if m.kind[c.Target] == "ok" && !seen[c.Target] {
+				seen[c.Target] = true
+				if rec(c.Target) {
+					return true
+				}
+			}
+		}
+		return false
+	}
+	return m.kind[s] == "ok" && rec(s)
+}
+
 // ---------------------------------------------------------------------------
 
 func gen(r *simrt.RNG) Workload {
@@ -423,6 +444,50 @@ func (Prop) Run(p *core.Plan) *core.Result {
 	}
 	if nacc > 0 && nacc < len(w.Scripts) {
 		res.Probes["mixed_verdict_sets"]++
+	}
+	// reach probes: which shapes this set contains
+	for _, sc := range w.Scripts {
+		seen := map[string]int{}
+		for _, c := range sc.Calls {
+			seen[c.Target]++
+			if _, ok := m.kind[c.Target]; !ok {
+				res.Probes["shape_missing_callee"]++
+			} else if m.kind[c.Target] != "ok" {
+				res.Probes["shape_broken_callee"]++
+			}
+			if c.Target == sc.Name {
+				res.Probes["shape_self_loop"]++
+			}
+		}
+		for _, n := range seen {
+			if n > 1 {
+				res.Probes["shape_repeated_callee"]++
+			}
+		}
+		// diamond: some script reachable from this one along two different first edges
+		if sc.Kind == "ok" {
+			first := map[string]map[string]bool{}
+			for _, c := range sc.Calls {
+				if first[c.Target] == nil {
+					first[c.Target] = m.reach(c.Target)
+				}
+			}
+			cnt := map[string]int{}
+			for _, r := range first {
+				for x := range r {
+					cnt[x]++
+				}
+			}
+			for _, n := range cnt {
+				if n > 1 {
+					res.Probes["shape_two_paths_to_one_script"]++
+					break
+				}
+			}
+			if !expectOK[sc.Name] && m.onCycle(sc.Name) {
+				res.Probes["shape_on_cycle"]++
+			}
+		}
 	}
 	res.Sig = core.Hash(describe(&w), world.Digest)
 	res.Sample = describe(&w)
